@@ -163,3 +163,16 @@ write_tuple!(A, B, C, D, E);
 write_tuple!(A, B, C, D, E, F);
 write_tuple!(A, B, C, D, E, F, G);
 write_tuple!(A, B, C, D, E, F, G, H);
+
+#[cfg(feature = "verif")]
+impl Writer<'_> {
+    /// Size of the internal buffer (verification harness only)
+    pub fn verif_buf_size() -> usize {
+        Writer::BUF_SIZE
+    }
+
+    /// Number of bytes accepted but not yet handed to the sink (verification harness only)
+    pub fn verif_pending(&self) -> usize {
+        self.end
+    }
+}
